@@ -12,7 +12,7 @@ def extract_replay(out, path, mode="w"):
     return n
 
 
-def spec_to_impl(res, prop, module, cfgs, replay_cmd, wd, label, workers=8, timeout=3000, simulate=None):
+def spec_to_impl(res, prop, module, cfgs, replay_cmd, wd, label, workers=8, timeout=3000, simulate=None, extra_args=None):
     """run bounded TLC instances that export behaviours, replay them into the real code"""
     beh = os.path.join(wd, f"{label}.behaviours.ndjson")
     open(beh, "w").close()
@@ -27,7 +27,7 @@ def spec_to_impl(res, prop, module, cfgs, replay_cmd, wd, label, workers=8, time
         if n == 0:
             raise ToolError(f"vacuity guard: {cfg} exported no behaviour")
     mis = os.path.join(wd, f"{label}.mismatch.ndjson")
-    p = run_vh([replay_cmd, "--in", beh, "--out", mis], timeout=timeout)
+    p = run_vh([replay_cmd, "--in", beh, "--out", mis] + (extra_args or []), timeout=timeout)
     summary = json.loads(p.stdout.strip().splitlines()[-1])
     bad = read_ndjson(mis)
     seen = {}
@@ -137,4 +137,76 @@ def c16(tier, seed):
                     "per_operation": names, "recorder_meta": meta, "samples": sample(lines, 3),
                     "mc_csc_states": mc["states"], "exhaustive": bool(meta.get("exhaustive"))}
     res.assumptions = ["small-integer values: f64 arithmetic is exact, so equality with the integer semantics is exact"]
+    return res
+
+
+def c09(tier, seed):
+    res = Result("C09", tier, seed, "model_checking")
+    wd = workdir("C09")
+    cfgs = ["MC_Presolve_quick.cfg", "MC_Presolve_hist.cfg"] if tier == "quick" else ["MC_Presolve_quick.cfg", "MC_Presolve_hist.cfg", "MC_Presolve_full.cfg"]
+    r = spec_to_impl(res, "C09", "MC_Presolve.tla", cfgs, "presolve-replay", wd, "presolve", workers=8 if tier == "quick" else 14,
+                     timeout=4 * 3600, extra_args=["--seed", seed])
+    res.coverage = {"states": r["states"], "transitions": max(1, r["transitions"]), "traces_validated_against_impl": r["behaviours"],
+                    "evaluations": r["behaviours"], "distinct_nontrivial": r["distinct_nontrivial"],
+                    "rule": "every behaviour of the bounded Presolve instances (every cone list over the menu incl. empty and 1-dimensional "
+                            "SOC/PSD cones, every placement of finite/big/huge right-hand sides, presolve on/off, set_infinity before and "
+                            "after construction) is instantiated with a planted feasible problem and replayed: keep map, reduced cone list, "
+                            "captured bound, capped b, internal rows compared after construction; returned s,z at dropped rows, user-length "
+                            "vectors and agreement with the hand-reduced problem after solve; non-trivial = at least one row dropped",
+                    "per_cfg": r["per_cfg"], "samples": r["samples"], "exhaustive": True,
+                    "trusted_base": ["TLC", "replayer comparison", "observer (hand-reduced optimality check)"]}
+    return res
+
+
+def events_with_cases(res, prop, spec, cfg, tr, cs, name, replay_cmd, nshards=10, env=None):
+    """independent events that each belong to a generated case (run id): a rejected event is reported with its case"""
+    v = validate_trace(spec, cfg, tr, nshards=nshards, env_extra=env, boundary=lambda e: True)
+    if not v["ok"]:
+        cases = {c["run"]: c for c in read_ndjson(cs)}
+        for rj in v["rejects"][:25]:
+            ev = rj["event"] or {}
+            run = ev.get("run")
+            key = None
+            text = f"run={run} rejected at {ev.get('ev')}"
+            if ev.get("ev") == "Panic":
+                key = "panic:" + str(ev.get("msg", ""))[:60].replace(" ", "_")
+                text += " panic: " + str(ev.get("msg"))[:200]
+            res.violation(f"{name}-s{res.seed}-run{run}", {"kind": replay_cmd, "prop": prop, "case": cases.get(run), "spec": spec,
+                                                            "cfg": cfg, "event": {k: ev[k] for k in list(ev)[:6]}}, text, key=key)
+    return v
+
+
+def replay_case(prop, payload):
+    res = Result(prop, "quick", 0, "model_checking")
+    wd = workdir(prop + "_replay")
+    cs = os.path.join(wd, "case.json")
+    with open(cs, "w") as f:
+        f.write(json.dumps(payload["case"]) + "\n")
+    tr = os.path.join(wd, "replay.ndjson")
+    run_vh([payload["kind"], "--case", cs, "--out", tr])
+    events_with_cases(res, prop, payload["spec"], payload["cfg"], tr, cs, "replay", payload["kind"], nshards=1)
+    res.coverage = {"states": 1, "transitions": 1, "traces_validated_against_impl": 1, "samples": [payload.get("event")]}
+    return res
+
+
+def c10(tier, seed):
+    res = Result("C10", tier, seed, "model_checking")
+    wd = workdir("C10")
+    tr, cs, mt = [os.path.join(wd, "equil" + x) for x in (".ndjson", ".cases.ndjson", ".meta.json")]
+    cnt = 2000 if tier == "quick" else 50000
+    run_vh(["equil", "--seed", seed, "--count", cnt, "--out", tr, "--cases", cs, "--meta", mt])
+    meta = json.load(open(mt))
+    v = events_with_cases(res, "C10", "Equil.tla", "Equil.cfg", tr, cs, "equil", "equil-replay", nshards=12)
+    lines = read_ndjson(tr)
+    smp = [{k: e[k] for k in ("run", "enable", "iters", "cones", "zero_row", "zero_col")} for e in lines[:3] if "cones" in e]
+    res.coverage = {"states": max(1, v["states"]), "transitions": max(1, v["transitions"]),
+                    "traces_validated_against_impl": v["events"], "evaluations": v["events"],
+                    "distinct_nontrivial": meta["with_nonscalar_cone"],
+                    "rule": "one evaluation = one solver constructed on random data with row/column scales spanning up to 30 orders of "
+                            "magnitude, zero rows/columns, empty P, zero q, all cone mixtures and an equilibrate_* settings lattice; "
+                            "Equil.tla is evaluated by TLC on the scalings and data read from the public solver.data; non-trivial = "
+                            "equilibration on and at least one non-scalar cone present (counted by the recorder)",
+                    "samples": smp, "exhaustive": False,
+                    "trusted_base": ["TLC", "FloatOrd limb comparisons", "observer products c*d_i*v*d_j in f64"]}
+    res.assumptions = ["settings domain equilibrate_min_scaling <= 1 <= equilibrate_max_scaling"]
     return res
